@@ -129,7 +129,9 @@
         if (!janet_checktype(op1, JANET_NUMBER)) {\
             vm_commit();\
             Janet _argv[2] = { op1, janet_wrap_number(CS) };\
-            stack[A] = janet_mcall(#op, 2, _argv);\
+            Janet _ret = janet_mcall(#op, 2, _argv);\
+            vm_restore();\
+            stack[A] = _ret;\
             vm_checkgc_pcnext();\
         } else {\
             double x1 = janet_unwrap_number(op1);\
@@ -143,7 +145,9 @@
         if (!janet_checktype(op1, JANET_NUMBER)) {\
             vm_commit();\
             Janet _argv[2] = { op1, janet_wrap_number(CS) };\
-            stack[A] = janet_mcall(#op, 2, _argv);\
+            Janet _ret = janet_mcall(#op, 2, _argv);\
+            vm_restore();\
+            stack[A] = _ret;\
             vm_checkgc_pcnext();\
         } else {\
             double y1 = janet_unwrap_number(op1);\
@@ -166,7 +170,9 @@
             vm_pcnext();\
         } else {\
             vm_commit();\
-            stack[A] = janet_binop_call(#op, "r" #op, op1, op2);\
+            Janet _ret = janet_binop_call(#op, "r" #op, op1, op2);\
+            vm_restore();\
+            stack[A] = _ret;\
             vm_checkgc_pcnext();\
         }\
     }
@@ -186,7 +192,9 @@
             vm_pcnext();\
         } else {\
             vm_commit();\
-            stack[A] = janet_binop_call(#op, "r" #op, op1, op2);\
+            Janet _ret = janet_binop_call(#op, "r" #op, op1, op2);\
+            vm_restore();\
+            stack[A] = _ret;\
             vm_checkgc_pcnext();\
         }\
     }
@@ -710,7 +718,9 @@ static JanetSignal run_vm(JanetFiber *fiber, Janet in) {
             vm_pcnext();
         } else {
             vm_commit();
-            stack[A] = janet_binop_call("div", "rdiv", op1, op2);
+            Janet ret = janet_binop_call("div", "rdiv", op1, op2);
+            vm_restore();
+            stack[A] = ret;
             vm_checkgc_pcnext();
         }
     }
@@ -730,7 +740,9 @@ static JanetSignal run_vm(JanetFiber *fiber, Janet in) {
             vm_pcnext();
         } else {
             vm_commit();
-            stack[A] = janet_binop_call("mod", "rmod", op1, op2);
+            Janet ret = janet_binop_call("mod", "rmod", op1, op2);
+            vm_restore();
+            stack[A] = ret;
             vm_checkgc_pcnext();
         }
     }
@@ -745,7 +757,9 @@ static JanetSignal run_vm(JanetFiber *fiber, Janet in) {
             vm_pcnext();
         } else {
             vm_commit();
-            stack[A] = janet_binop_call("%", "r%", op1, op2);
+            Janet ret = janet_binop_call("%", "r%", op1, op2);
+            vm_restore();
+            stack[A] = ret;
             vm_checkgc_pcnext();
         }
     }
@@ -766,7 +780,9 @@ static JanetSignal run_vm(JanetFiber *fiber, Janet in) {
             vm_pcnext();
         } else {
             vm_commit();
-            stack[A] = janet_unary_call("~", op);
+            Janet ret = janet_unary_call("~", op);
+            vm_restore();
+            stack[A] = ret;
             vm_checkgc_pcnext();
         }
     }
@@ -1019,10 +1035,10 @@ static JanetSignal run_vm(JanetFiber *fiber, Janet in) {
         }
         if (janet_checktype(callee, JANET_FUNCTION)) {
             func = janet_unwrap_function(callee);
+            vm_commit();
             if (func->gc.flags & JANET_FUNCFLAG_TRACE) {
                 vm_do_trace(func, fiber->stacktop - fiber->stackstart, fiber->data + fiber->stackstart);
             }
-            vm_commit();
             if (janet_fiber_funcframe(fiber, func)) {
                 int32_t n = fiber->stacktop - fiber->stackstart;
                 janet_panicf("%v called with %d argument%s, expected %d",
@@ -1042,7 +1058,9 @@ static JanetSignal run_vm(JanetFiber *fiber, Janet in) {
             vm_checkgc_pcnext();
         } else {
             vm_commit();
-            stack[A] = call_nonfn(fiber, callee);
+            Janet ret = call_nonfn(fiber, callee);
+            vm_restore();
+            stack[A] = ret;
             vm_pcnext();
         }
     }
@@ -1184,7 +1202,11 @@ static JanetSignal run_vm(JanetFiber *fiber, Janet in) {
 
     VM_OP(JOP_LENGTH)
     vm_commit();
-    stack[A] = janet_lengthv(stack[E]);
+    {
+        Janet temp = janet_lengthv(stack[E]);
+        vm_restore();
+        stack[A] = temp;
+    }
     vm_pcnext();
 
     VM_OP(JOP_MAKE_ARRAY) {
